@@ -91,14 +91,14 @@ def gcirc(ra1, dec1, ra2, dec2, units=2):
     https://en.wikipedia.org/wiki/Great-circle_distance
     """
     if units == 0:
-        rarad1 = ra1
-        dcrad1 = dec1
-        rarad2 = ra2
-        dcrad2 = dec2
+        rarad1 = np.asanyarray(ra1)
+        dcrad1 = np.asanyarray(dec1)
+        rarad2 = np.asanyarray(ra2)
+        dcrad2 = np.asanyarray(dec2)
     elif units == 1:
-        rarad1 = np.deg2rad(15.0*ra1)
+        rarad1 = np.deg2rad(15.0*np.asanyarray(ra1))
         dcrad1 = np.deg2rad(dec1)
-        rarad2 = np.deg2rad(15.0*ra2)
+        rarad2 = np.deg2rad(15.0*np.asanyarray(ra2))
         dcrad2 = np.deg2rad(dec2)
     elif units == 2:
         rarad1 = np.deg2rad(ra1)
